@@ -155,7 +155,7 @@ def gen_case(rng, spec):
     charset = None
     if use_charset:
         charset = sorted(set(alphabet) | set(chars) | {c for e in examples.values() for x in e for c in x} | {"a", "b", "é"})
-    return {"text": text, "alphabet": alphabet, "examples": examples, "charset": charset,
+    return {"text": text, "alphabet": alphabet, "examples": examples, "charset": charset, "decay": rng.choice([1, 1, 0.5, 0.9]),
             "maxlen": 3 if spec.get("tier") == "quick" else 4, "sseed": rng.randrange(1 << 30)}
 
 
@@ -253,6 +253,8 @@ def run_case(case, ctx):
         if not ok:
             return
         kw = {}
+        if case.get("decay") not in (None, 1):
+            kw["decay"] = case["decay"]  # any positive decay leaves the accepted language unchanged
         if case.get("charset"):
             kw["charset"] = set(case["charset"])
             ctx.shape["option:charset-set"] += 1
